@@ -2,7 +2,7 @@
    Model/TestAndSet.v: cells (one per share number on a common placement) holding version
    ids, writers that survey and then send guarded writes, any interleaving of events. *)
 From Coq Require Import List NArith Bool.
-From Verif Require Import Model.TestAndSet Proofs.TestAndSet.
+From Verif Require Import Model.TestAndSet Proofs.TestAndSet Proofs.TestAndSetTrace.
 Import ListNotations.
 Local Open Scope N_scope.
 
@@ -57,3 +57,42 @@ Example ex_race :
   cells s = [1; 2; 1; 2; 0; 0] /\ map w_surprised (ws s) = [true; true] /\
   count_v 1 (cells s) = 2%nat /\ count_v 2 (cells s) = 2%nat /\ count_v 0 (cells s) = 2%nat.
 Proof. vm_compute. repeat split. Qed.
+
+(* trace level, for ALL interleavings of any number of writers that each survey once per
+   publish (single_survey): `dirty g j` is the ghost set of cells that some OTHER writer's
+   applied write has touched since j's last survey.  An applied write of j never lands on
+   such a cell -- versions are fresh, so "cell holds what j saw" implies "nobody wrote it". *)
+Theorem applied_write_on_untouched_cell :
+  forall ncells n evs j i,
+    single_survey ncells n evs ->
+    applied (gs (grun ncells n evs)) (Write j i) = true ->
+    ~ In i (dirty (grun ncells n evs) j).
+Proof. exact applied_write_on_untouched_cell_ok. Qed.
+Print Assumptions applied_write_on_untouched_cell.
+
+(* and the converse reading: a write aimed at a touched cell is refused and changes nothing *)
+Theorem touched_cell_write_refused :
+  forall ncells n evs j i,
+    single_survey ncells n evs ->
+    In i (dirty (grun ncells n evs) j) ->
+    applied (gs (grun ncells n evs)) (Write j i) = false /\
+    cells (step (run ncells n evs) (Write j i)) = cells (run ncells n evs).
+Proof. exact touched_cell_write_refused_ok. Qed.
+Print Assumptions touched_cell_write_refused.
+
+(* the ghost state is only an annotation: its system component is exactly the model's run *)
+Theorem ghost_run_is_run : forall ncells n evs, gs (grun ncells n evs) = run ncells n evs.
+Proof. exact grun_gs. Qed.
+Print Assumptions ghost_run_is_run.
+
+(* non-vacuity: the race above satisfies single_survey, writer 0's dirty set is {1,3} there,
+   and its write to cell 4 would still be applied while a write to cell 1 would be refused *)
+Example ex_trace :
+  let evs := [Survey 0; Survey 1; Write 0 0; Write 1 1; Write 0 1; Write 1 0; Write 0 2; Write 1 3]%nat in
+  let g := grun 6 2 evs in
+  dirty g 0%nat = [3; 1]%nat /\ dirty g 1%nat = [2; 0]%nat /\
+  applied (gs g) (Write 0 4) = true /\ applied (gs g) (Write 0 1) = false.
+Proof. vm_compute. repeat split. Qed.
+Example ex_trace_single_survey :
+  single_survey 6 2 [Survey 0; Survey 1; Write 0 0; Write 1 1; Write 0 1; Write 1 0; Write 0 2; Write 1 3]%nat.
+Proof. unfold single_survey. cbn. repeat split; intros w H; inversion H; reflexivity. Qed.
